@@ -50,6 +50,7 @@ type loopInfo struct {
 	modCell map[*ssa.Alloc]bool
 	heapAll bool
 	heapKey map[string]bool
+	preSt *State // state on the entry edge (for before(k, e))
 	hdrSt   *State
 	// for keys modified only by direct stores: the base values (slices / pointers) stored through
 	keyBases   map[string][]ssa.Value
@@ -646,6 +647,7 @@ func (fr *Frame) enterLoop(li *loopInfo, st *State) *State {
 		g.note(fmt.Sprintf("loop %d of %s has no invariant: 'true' is used", li.ord, g.fnKey))
 	}
 	fr.analyseLoopMods(li)
+	li.preSt = st.clone()
 	// 1. invariants hold on entry
 	if ri := fr.rangeInvariant(li, st); ri != "" {
 		g.oblige("inv0", fmt.Sprintf("L%d.range", li.ord), st.path, ri, "range loop index is within -1..len-1 (entry)")
